@@ -351,3 +351,122 @@ def run_c03(c):
             lambda: dtw.distance_matrix_fast([a_n, b_n], parallel=False, compact=True, **kw)[0])
         add("native:dtw_distance", lambda: _native_dist(c))
     return {"id": c["id"], "routes": routes, "obs": obs}
+
+
+# ---------------------------------------------------------------------------------------------
+# C04: accumulated-cost matrices of both engines and all layouts
+def enc_matrix(c, m, int_repr):
+    try:
+        rows = [[enc_cell(c, v, int_repr) for v in row] for row in m]
+    except Exception:
+        return [[OFF_LATTICE]]
+    return rows
+
+
+def _enc_d(c, d, int_repr):
+    if int_repr:
+        return enc_cell(c, d, True) if d != -1.0 else OFF_LATTICE
+    return enc_cost(c, d)
+
+
+def _native_wps(c, psi_neg, int_repr, slices=()):
+    """Compact buffer of exactly the advertised size, expanded with dtw_expand_wps (and slices)."""
+    from . import native
+    lib = native.lib("plain")
+    nd = ndim_of(c)
+    l1, l2 = len(c["s1"]), len(c["s2"])
+    a = native.flat_series(c, "s1")
+    b = native.flat_series(c, "s2")
+    A = native.Buf(len(a), fill=a)
+    B = native.Buf(len(b), fill=b)
+    st = lib.settings(c)
+    n = lib.L.dtw_settings_wps_length(l1, l2, st)
+    W = native.Buf(n, fill=float("nan"))
+    F = native.Buf((l1 + 1) * (l2 + 1), fill=float("nan"))
+    bufs = [A, B, W, F]
+    try:
+        d = lib.L.dtw_warping_paths_ndim(W.ptr, A.ptr, l1, B.ptr, l2, True, int_repr, psi_neg, nd, st)
+        lib.L.dtw_expand_wps(W.ptr, F.ptr, l1, l2, st)
+        for x in bufs:
+            x.check("wps")
+        full = F.tolist()
+        mat = [full[i * (l2 + 1):(i + 1) * (l2 + 1)] for i in range(l1 + 1)]
+        outs = []
+        for (rb, re, cb, ce) in slices:
+            Sl = native.Buf((re - rb) * (ce - cb), fill=float("nan"))
+            lib.L.dtw_expand_wps_slice(W.ptr, Sl.ptr, l1, l2, rb, re, cb, ce, st)
+            try:
+                Sl.check("slice")
+                W.check("wps")
+                fl = Sl.tolist()
+                outs.append([fl[i * (ce - cb):(i + 1) * (ce - cb)] for i in range(re - rb)])
+            except native.CanaryError:
+                outs.append([["canary"]])      # out-of-bounds write: judged as a malformed slice
+            Sl.free()
+        return d, mat, outs
+    finally:
+        for x in bufs:
+            x.free()
+
+
+def pick_slices(c, rng_seed):
+    import random
+    rng = random.Random("sl-%s" % rng_seed)
+    l1, l2 = len(c["s1"]), len(c["s2"])
+    out = [(0, l1 + 1, 0, l2 + 1)]   # the full range first (judged before sub-ranges)
+    rb = rng.randint(0, l1)
+    re = rng.randint(rb + 1, l1 + 1)
+    cb = rng.randint(0, l2)
+    ce = rng.randint(cb + 1, l2 + 1)
+    out.append((rb, re, cb, ce))
+    return out
+
+
+def run_c04(c):
+    from dtaidistance import dtw
+    nd = ndim_of(c)
+    use_ndim = nd > 1
+    kw = settings(c)
+    a, b = series(c, "s1", "numpy"), series(c, "s2", "numpy")
+    routes, mats, ds, negs = [], [], [], []
+
+    def add(name, fn, neg, int_repr):
+        routes.append(name)
+        negs.append(bool(neg))
+        r = guarded(fn)
+        if isinstance(r, tuple) and len(r) == 2 and r[0] == "raised":
+            mats.append([])
+            ds.append(RAISED)
+            return
+        try:
+            d, m = r[0], r[1]
+        except Exception:
+            mats.append([])
+            ds.append(RAISED)
+            return
+        mats.append(enc_matrix(c, m, int_repr))
+        ds.append(_enc_d(c, d, int_repr))
+
+    add("py:warping_paths", lambda: dtw.warping_paths(a, b, **kw), True, False)
+    add("py:warping_paths[int,noneg]", lambda: dtw.warping_paths(a, b, psi_neg=False, keep_int_repr=True, **kw),
+        False, True)
+    add("c:warping_paths_fast", lambda: dtw.warping_paths_fast(a, b, **kw), True, False)
+    add("c:warping_paths_fast[int,noneg]",
+        lambda: dtw.warping_paths_fast(a, b, psi_neg=False, keep_int_repr=True, **kw), False, True)
+    add("c:warping_paths[use_c]", lambda: dtw.warping_paths(a, b, use_c=True, **kw), True, False)
+    sls = pick_slices(c, c["id"])
+    slices = []
+    r = guarded(lambda: _native_wps(c, True, False, sls))
+    routes.append("native:compact+expand")
+    negs.append(True)
+    if isinstance(r, tuple) and len(r) == 2 and r[0] == "raised":
+        mats.append([])
+        ds.append(RAISED)
+    else:
+        d, m, outs = r
+        mats.append(enc_matrix(c, m, False))
+        ds.append(_enc_d(c, d, False))
+        for (rb, re, cb, ce), sm in zip(sls, outs):
+            slices.append({"route": "native:expand_slice[%d:%d,%d:%d]" % (rb, re, cb, ce), "r": [rb, re, cb, ce],
+                           "neg": True, "mat": enc_matrix(c, sm, False)})
+    return {"id": c["id"], "routes": routes, "mat": mats, "d": ds, "neg": negs, "slices": slices}
